@@ -283,6 +283,15 @@ Section Ingest.
     - eexists _, _, _. repeat split; eauto.
   Qed.
 
+  Lemma ingest_effects_once_and_ordered cfg st r :
+    ((count is_share (snd (ingest' cfg st r)) <= 1)%nat /\
+     (count is_announce (snd (ingest' cfg st r)) <= 1)%nat /\
+     (count is_probe (snd (ingest' cfg st r)) <= 1)%nat) /\
+    exists probes shares announces,
+      snd (ingest' cfg st r) = probes ++ shares ++ announces /\
+      forallb is_probe probes = true /\ forallb is_share shares = true /\ forallb is_announce announces = true.
+  Proof. split; [apply ingest_effect_counts | apply ingest_effect_order]. Qed.
+
   (* ---- visibility: lookups return exactly the old visible registrations plus what was announced ---- *)
   Lemma visible_all_app st e : visible_all (st ++ [e]) = visible_all st ++ (if e_valid e then [e_reg e] else []).
   Proof. unfold visible_all. rewrite filter_app, map_app. cbn. destruct (e_valid e); reflexivity. Qed.
@@ -310,3 +319,383 @@ Section Ingest.
     - now rewrite !announced_regs_app, announced_probe_list, announced_share_list.
   Qed.
 End Ingest.
+
+(* ================================================================ messages *)
+Section Messages.
+  Variable select : bytes -> N -> N -> bool -> option ipraw.
+  Variable params_ok : N -> N -> option N -> bool.
+  Variable dst_port : bytes -> N -> N -> option N -> bool -> option N.
+  Variable geoip_ok : ipraw -> bool.
+  Variable covert_check : bytes -> option bytes.
+  Variable live : ipraw -> N -> bool.
+
+  Notation new_reg' := (new_reg select params_ok dst_port geoip_ok).
+  Notation parse' := (parse_reg_message select params_ok dst_port geoip_ok).
+  Notation buildable' := (buildable select params_ok dst_port geoip_ok).
+  Notation message_ok' := (message_ok select params_ok dst_port geoip_ok).
+  Notation ingest' := (ingest covert_check live).
+  Notation ingest_all' := (ingest_all covert_check live).
+  Notation process' := (process select params_ok dst_port geoip_ok covert_check live).
+  Notation admissible' := (admissible covert_check live).
+
+  Lemma new_reg_no_panic cfg w p v6 : new_reg' cfg w p v6 <> Panic.
+  Proof.
+    unfold new_reg, ip_override.
+    destruct (w_rr w) as [rr|].
+    2:{ destruct (select _ _ _ _); [|discriminate].
+        repeat match goal with |- context [if ?b then _ else _] => destruct b end; try discriminate.
+        destruct (dst_port _ _ _ _ _); [|discriminate].
+        repeat match goal with |- context [if ?b then _ else _] => destruct b end; discriminate. }
+    destruct v6.
+    - destruct (rr_v6 rr) as [b|].
+      + destruct (negb (len_is 16 b)); [discriminate|]. destruct (is_v4 b); [discriminate|].
+        destruct (select _ _ _ _); [|discriminate].
+        repeat match goal with |- context [if ?b then _ else _] => destruct b end; try discriminate.
+        destruct (dst_port _ _ _ _ _); [|discriminate].
+        repeat match goal with |- context [if ?b then _ else _] => destruct b end; discriminate.
+      + destruct (select _ _ _ _); [|discriminate].
+        repeat match goal with |- context [if ?b then _ else _] => destruct b end; try discriminate.
+        destruct (dst_port _ _ _ _ _); [|discriminate].
+        repeat match goal with |- context [if ?b then _ else _] => destruct b end; discriminate.
+    - destruct (rr_v4 rr) as [a|]; [destruct (a =? 0)|];
+        (destruct (select _ _ _ _); [|discriminate];
+         repeat match goal with |- context [if ?b then _ else _] => destruct b end; try discriminate;
+         destruct (dst_port _ _ _ _ _); [|discriminate];
+         repeat match goal with |- context [if ?b then _ else _] => destruct b end; discriminate).
+  Qed.
+
+  (* NewRegistrationC2SWrapper succeeds iff every build condition holds, and then the draft is ... *)
+  Lemma new_reg_ok_iff cfg w p v6 :
+    (exists r, new_reg' cfg w p v6 = Ok r) <-> buildable' cfg w p v6 = true.
+  Proof.
+    unfold new_reg, buildable, override_valid, phantom_of.
+    destruct (ip_override w v6) as [ovr|e|] eqn:Eo.
+    2:{ split; [intros (r & H); discriminate | discriminate]. }
+    2:{ split; [intros (r & H); discriminate | discriminate]. }
+    destruct (select (w_secret w) (c_gen p) (c_libver p) v6) as [sel|] eqn:Es.
+    2:{ cbn. split; [intros (r & H); discriminate | discriminate]. }
+    destruct (transport_enabled cfg (c_transport p)); cbn [negb andb].
+    2:{ split; [intros (r & H); discriminate | discriminate]. }
+    destruct (params_ok (c_transport p) (c_libver p) (effective_params w p)); cbn [negb andb].
+    2:{ split; [intros (r & H); discriminate | discriminate]. }
+    destruct (dst_port (w_secret w) (c_transport p) (c_libver p) (effective_params w p) v6) as [port0|]; cbn [andb].
+    2:{ split; [intros (r & H); discriminate | discriminate]. }
+    destruct (valid_ip (regaddr_of w)); cbn [negb andb].
+    2:{ split; [intros (r & H); discriminate | discriminate]. }
+    assert (Hph : match ovr with Some o => Some o | None => Some sel end =
+                  Some (match ovr with Some o => o | None => sel end)) by (destruct ovr; reflexivity).
+    rewrite Hph. set (ph := match ovr with Some o => o | None => sel end).
+    destruct (is_v4 ph); cbn [negb andb orb].
+    - destruct (is_v4 (regaddr_of w)); cbn [negb andb].
+      + destruct (geoip_ok (regaddr_of w)); cbn [negb].
+        * split; [reflexivity | intros _; eexists; reflexivity].
+        * split; [intros (r & H); discriminate | discriminate].
+      + split; [intros (r & H); discriminate | discriminate].
+    - destruct (geoip_ok (regaddr_of w)); cbn [negb].
+      + split; [reflexivity | intros _; eexists; reflexivity].
+      + split; [intros (r & H); discriminate | discriminate].
+  Qed.
+
+  Lemma new_reg_fields cfg w p v6 r :
+    new_reg' cfg w p v6 = Ok r ->
+    r_has_keys r = true /\ r_secret r = w_secret w /\ r_phantom r = phantom_of select w p v6 /\
+    r_transport r = c_transport p /\ r_covert r = c_covert p /\ r_prescanned r = c_prescanned p /\
+    r_source r = Some (w_source w) /\ r_regaddr r = regaddr_of w /\
+    r_orig r = Some (set_params p (effective_params w p)).
+  Proof.
+    unfold new_reg, phantom_of.
+    destruct (ip_override w v6) as [ovr|e|]; try discriminate.
+    destruct (select (w_secret w) (c_gen p) (c_libver p) v6) as [sel|]; [|discriminate].
+    destruct (negb (transport_enabled cfg (c_transport p))); [discriminate|].
+    destruct (negb (params_ok _ _ _)); [discriminate|].
+    destruct (dst_port _ _ _ _ _); [|discriminate].
+    destruct (negb (valid_ip _)); [discriminate|].
+    destruct (is_v4 _ && negb _); [discriminate|].
+    destruct (negb (geoip_ok _)); [discriminate|].
+    intro H; injection H as <-. cbn. destruct ovr; repeat split; reflexivity.
+  Qed.
+
+  Lemma new_reg_complete cfg w p v6 r : new_reg' cfg w p v6 = Ok r -> complete r = true.
+  Proof.
+    intro H. pose proof (new_reg_ok_iff cfg w p v6) as [Hb _]. specialize (Hb (ex_intro _ r H)).
+    destruct (new_reg_fields _ _ _ _ _ H) as (Hk & _ & Hph & _ & _ & _ & Hs & _).
+    unfold complete. rewrite Hk, Hs, Hph.
+    destruct (phantom_of select w p v6) eqn:E; [reflexivity|]. exfalso.
+    unfold buildable in Hb. rewrite E in Hb. cbv beta iota in Hb. rewrite andb_false_r in Hb. discriminate.
+  Qed.
+
+  (* parseRegMessage: the drafts are exactly the requested families, provided every one of them can be built;
+     otherwise the whole message is dropped *)
+  Lemma parse_spec cfg w p :
+    w_payload w = Some p ->
+    (message_ok' cfg w p = true ->
+       exists l4 l6, parse' cfg w = Ok (l4 ++ l6) /\
+         (if want cfg w p false then exists r, l4 = [r] /\ new_reg' cfg w p false = Ok r else l4 = []) /\
+         (if want cfg w p true then exists r, l6 = [r] /\ new_reg' cfg w p true = Ok r else l6 = [])) /\
+    (message_ok' cfg w p = false -> parse' cfg w = Err ErrBuild).
+  Proof.
+    intro Hp. unfold parse_reg_message, message_ok. rewrite Hp.
+    change (c_v4 p && cf_v4 cfg && is_v4 (regaddr_of w)) with (want cfg w p false).
+    change (c_v6 p && cf_v6 cfg) with (want cfg w p true).
+    pose proof (new_reg_ok_iff cfg w p false) as B4. pose proof (new_reg_ok_iff cfg w p true) as B6.
+    pose proof (new_reg_no_panic cfg w p false) as N4. pose proof (new_reg_no_panic cfg w p true) as N6.
+    destruct (want cfg w p false); cbn [negb orb andb].
+    - destruct (new_reg' cfg w p false) as [r4|[]|] eqn:E4; [| |congruence].
+      + assert (Hb4 : buildable' cfg w p false = true) by (apply B4; eauto). rewrite Hb4. cbn [andb].
+        destruct (want cfg w p true); cbn [negb orb].
+        * destruct (new_reg' cfg w p true) as [r6|[]|] eqn:E6; [| |congruence].
+          -- assert (Hb6 : buildable' cfg w p true = true) by (apply B6; eauto). rewrite Hb6.
+             split; [|discriminate]. intros _. exists [r4], [r6]. repeat split; eauto.
+          -- assert (Hb6 : buildable' cfg w p true = false).
+             { apply not_true_is_false. intro E. apply B6 in E as (r & E). discriminate. }
+             rewrite Hb6. split; [discriminate | reflexivity].
+        * split; [|discriminate]. intros _. exists [r4], []. rewrite app_nil_r. repeat split; eauto.
+      + assert (Hb4 : buildable' cfg w p false = false).
+        { apply not_true_is_false. intro E. apply B4 in E as (r & E). discriminate. }
+        rewrite Hb4. cbn [andb]. split; [discriminate | reflexivity].
+    - destruct (want cfg w p true); cbn [negb orb].
+      + destruct (new_reg' cfg w p true) as [r6|[]|] eqn:E6; [| |congruence].
+        * assert (Hb6 : buildable' cfg w p true = true) by (apply B6; eauto). rewrite Hb6.
+          split; [|discriminate]. intros _. exists [], [r6]. repeat split; eauto.
+        * assert (Hb6 : buildable' cfg w p true = false).
+          { apply not_true_is_false. intro E. apply B6 in E as (r & E). discriminate. }
+          rewrite Hb6. split; [discriminate | reflexivity].
+      + split; [|discriminate]. intros _. exists [], []. repeat split; reflexivity.
+  Qed.
+
+  Lemma parse_no_payload cfg w : w_payload w = None -> parse' cfg w = Ok [].
+  Proof. unfold parse_reg_message. now intros ->. Qed.
+End Messages.
+
+Section Process.
+  Variable select : bytes -> N -> N -> bool -> option ipraw.
+  Variable params_ok : N -> N -> option N -> bool.
+  Variable dst_port : bytes -> N -> N -> option N -> bool -> option N.
+  Variable geoip_ok : ipraw -> bool.
+  Variable covert_check : bytes -> option bytes.
+  Variable live : ipraw -> N -> bool.
+
+  Notation new_reg' := (new_reg select params_ok dst_port geoip_ok).
+  Notation parse' := (parse_reg_message select params_ok dst_port geoip_ok).
+  Notation buildable' := (buildable select params_ok dst_port geoip_ok).
+  Notation message_ok' := (message_ok select params_ok dst_port geoip_ok).
+  Notation ingest' := (ingest covert_check live).
+  Notation ingest_all' := (ingest_all covert_check live).
+  Notation process' := (process select params_ok dst_port geoip_ok covert_check live).
+  Notation admissible' := (admissible covert_check live).
+  Notation state_before' := (state_before select params_ok dst_port geoip_ok covert_check live).
+
+  Lemma ingest_all_nil cfg st : ingest_all' cfg st [] = (st, []).
+  Proof. reflexivity. Qed.
+
+  Lemma ingest_all_one cfg st r : ingest_all' cfg st [r] = ingest' cfg st r.
+  Proof. cbn. destruct (ingest' cfg st r) as [st1 e1]. now rewrite app_nil_r. Qed.
+
+  Lemma ingest_all_two cfg st a b :
+    ingest_all' cfg st [a; b] =
+    (fst (ingest' cfg (fst (ingest' cfg st a)) b), snd (ingest' cfg st a) ++ snd (ingest' cfg (fst (ingest' cfg st a)) b)).
+  Proof.
+    cbn. destruct (ingest' cfg st a) as [st1 e1]. cbn [fst snd].
+    destruct (ingest' cfg st1 b) as [st2 e2]. cbn [fst snd]. now rewrite app_nil_r.
+  Qed.
+
+  Lemma ingest_all_visible cfg st l :
+    visible_all (fst (ingest_all' cfg st l)) = visible_all st ++ announced_regs (snd (ingest_all' cfg st l)).
+  Proof.
+    revert st; induction l as [|r l IH]; intro st.
+    - cbn. now rewrite app_nil_r.
+    - cbn [ingest_all]. pose proof (ingest_visible covert_check live cfg st r) as H1.
+      destruct (ingest' cfg st r) as [st1 e1]. cbn [fst snd] in H1.
+      specialize (IH st1). destruct (ingest_all' cfg st1 l) as [st2 e2]. cbn [fst snd] in *.
+      now rewrite IH, H1, announced_regs_app, app_assoc.
+  Qed.
+
+  (* lookups after a message: what they returned before plus what was announced *)
+  Lemma process_visible cfg st w :
+    visible_all (fst (process' cfg st w)) = visible_all st ++ announced_regs (snd (process' cfg st w)).
+  Proof.
+    unfold process. destruct (parse' cfg w) as [l|e|].
+    - apply ingest_all_visible.
+    - cbn. now rewrite app_nil_r.
+    - cbn. now rewrite app_nil_r.
+  Qed.
+
+  (* a message that cannot be built for a requested family is dropped as a whole: no effect, no change *)
+  Lemma process_dropped cfg st w p v6 :
+    w_payload w = Some p -> want cfg w p v6 = true -> buildable' cfg w p v6 = false ->
+    process' cfg st w = (st, []).
+  Proof.
+    intros Hp Hw Hb. unfold process.
+    destruct (parse_spec select params_ok dst_port geoip_ok cfg w p Hp) as [_ Herr].
+    rewrite Herr; [reflexivity|]. unfold message_ok.
+    destruct v6; rewrite Hw, Hb; cbn; [apply andb_false_r | reflexivity].
+  Qed.
+
+  Lemma process_no_payload cfg st w : w_payload w = None -> process' cfg st w = (st, []).
+  Proof. intro H. unfold process. now rewrite (parse_no_payload select params_ok dst_port geoip_ok cfg w H). Qed.
+
+  (* the effects of a message are those of its IPv4 draft followed by those of its IPv6 draft *)
+  Lemma process_effects cfg st w p :
+    w_payload w = Some p -> message_ok' cfg w p = true ->
+    snd (process' cfg st w) =
+      (if want cfg w p false then match new_reg' cfg w p false with Ok r => snd (ingest' cfg st r) | _ => [] end else []) ++
+      (if want cfg w p true then match new_reg' cfg w p true with
+                                 | Ok r => snd (ingest' cfg (state_before' cfg st w p true) r) | _ => [] end else []).
+  Proof.
+    intros Hp Hok. unfold process, state_before.
+    destruct (parse_spec select params_ok dst_port geoip_ok cfg w p Hp) as [Hgood _].
+    destruct (Hgood Hok) as (l4 & l6 & Hparse & H4 & H6). rewrite Hparse. cbn [andb].
+    destruct (want cfg w p false); destruct (want cfg w p true).
+    - destruct H4 as (r4 & -> & E4). destruct H6 as (r6 & -> & E6). rewrite E4, E6.
+      cbn [app]. now rewrite ingest_all_two.
+    - destruct H4 as (r4 & -> & E4). subst l6. rewrite E4, !app_nil_r. now rewrite ingest_all_one.
+    - destruct H6 as (r6 & -> & E6). subst l4. rewrite E6. cbn [app]. now rewrite ingest_all_one.
+    - subst. reflexivity.
+  Qed.
+
+  (* ---- announced iff admissible, for a whole message ---- *)
+  Lemma process_announce_iff cfg st w r' :
+    In (Announce r') (snd (process' cfg st w)) <->
+    exists p v6 r lit,
+      w_payload w = Some p /\ message_ok' cfg w p = true /\ want cfg w p v6 = true /\
+      new_reg' cfg w p v6 = Ok r /\
+      admissible' cfg (state_before' cfg st w p v6) r = true /\
+      covert_check (r_covert r) = Some lit /\ r' = set_covert r lit.
+  Proof.
+    split.
+    - intro Hin. destruct (w_payload w) as [p|] eqn:Hp.
+      2:{ rewrite (process_no_payload cfg st w Hp) in Hin. destruct Hin. }
+      destruct (message_ok' cfg w p) eqn:Hok.
+      2:{ unfold process in Hin.
+          destruct (parse_spec select params_ok dst_port geoip_ok cfg w p Hp) as [_ Herr].
+          rewrite (Herr Hok) in Hin. destruct Hin. }
+      rewrite (process_effects cfg st w p Hp Hok) in Hin. apply in_app_iff in Hin as [Hin|Hin].
+      + destruct (want cfg w p false) eqn:Hw; [|destruct Hin].
+        destruct (new_reg' cfg w p false) as [r|e|] eqn:En; try (now destruct Hin).
+        destruct (ingest_announced_is_checked _ _ _ _ _ _ Hin) as (lit & Hc & ->).
+        exists p, false, r, lit. repeat split; auto.
+        apply ingest_announce_iff. eauto.
+      + destruct (want cfg w p true) eqn:Hw; [|destruct Hin].
+        destruct (new_reg' cfg w p true) as [r|e|] eqn:En; try (now destruct Hin).
+        destruct (ingest_announced_is_checked _ _ _ _ _ _ Hin) as (lit & Hc & ->).
+        exists p, true, r, lit. repeat split; auto.
+        apply ingest_announce_iff. eauto.
+    - intros (p & v6 & r & lit & Hp & Hok & Hw & En & Ha & Hc & ->).
+      rewrite (process_effects cfg st w p Hp Hok). apply in_app_iff.
+      apply ingest_announce_iff in Ha as (r'' & Hin).
+      destruct (ingest_announced_is_checked _ _ _ _ _ _ Hin) as (lit' & Hc' & ->).
+      assert (lit' = lit) by congruence. subst lit'.
+      destruct v6.
+      + right. now rewrite Hw, En.
+      + left. rewrite Hw, En. exact Hin.
+  Qed.
+
+  (* ---- the IPv6 twin of a dual-stack message is never passed on; hence at most one Share per message ---- *)
+  Hypothesis select_v6_not_v4 : forall s g l ip, select s g l true = Some ip -> is_v4 ip = false.
+
+  Lemma v6_twin_no_wrapper cfg w p r :
+    new_reg' cfg w p true = Ok r -> c_v4 p = true -> generate_c2s_wrapper r = None.
+  Proof.
+    intros En Hv4. destruct (new_reg_fields _ _ _ _ _ _ _ _ _ En) as (_ & _ & Hph & _ & _ & _ & _ & _ & Ho).
+    unfold generate_c2s_wrapper. rewrite Ho. cbn [c_v4 set_params]. rewrite Hv4.
+    assert (Hnot4 : phantom_is_v4 r = false).
+    { unfold phantom_is_v4. rewrite Hph. unfold phantom_of, ip_override.
+      destruct (w_rr w) as [rr|].
+      - destruct (rr_v6 rr) as [b|].
+        + destruct (negb (len_is 16 b)); [reflexivity|]. destruct (is_v4 b) eqn:E4; [reflexivity|].
+          destruct (select _ _ _ true); [exact E4|reflexivity].
+        + destruct (select _ _ _ true) eqn:Es; [|reflexivity]. eapply select_v6_not_v4; eauto.
+      - destruct (select _ _ _ true) eqn:Es; [|reflexivity]. eapply select_v6_not_v4; eauto. }
+    now rewrite Hnot4.
+  Qed.
+
+  Lemma count_pos_in f l : (0 < count f l)%nat -> exists e, In e l /\ f e = true.
+  Proof.
+    unfold count. induction l as [|x l IH]; cbn; [lia|].
+    destruct (f x) eqn:E.
+    - intros _. exists x. auto.
+    - intro H. destruct (IH H) as (e & Hin & He). exists e. auto.
+  Qed.
+
+  Lemma no_wrapper_no_share cfg st r : generate_c2s_wrapper r = None -> count is_share (snd (ingest' cfg st r)) = 0%nat.
+  Proof.
+    intro Hg. destruct (count is_share (snd (ingest' cfg st r))) eqn:E; [reflexivity|].
+    assert (H : (0 < count is_share (snd (ingest' cfg st r)))%nat) by lia.
+    apply count_pos_in in H as (e & Hin & He). destruct e; try discriminate.
+    apply ingest_share_iff in Hin as (_ & Hs). congruence.
+  Qed.
+
+  Lemma process_share_at_most_once cfg st w : (count is_share (snd (process' cfg st w)) <= 1)%nat.
+  Proof.
+    destruct (w_payload w) as [p|] eqn:Hp.
+    2:{ rewrite (process_no_payload cfg st w Hp). cbn. lia. }
+    destruct (message_ok' cfg w p) eqn:Hok.
+    2:{ unfold process. destruct (parse_spec select params_ok dst_port geoip_ok cfg w p Hp) as [_ Herr].
+        rewrite (Herr Hok). cbn. lia. }
+    rewrite (process_effects cfg st w p Hp Hok), count_app.
+    destruct (want cfg w p false) eqn:Hw4.
+    - assert (Hv4 : c_v4 p = true).
+      { unfold want in Hw4. apply andb_true_iff in Hw4 as [Hw4 _]. now apply andb_true_iff in Hw4 as [Hw4 _]. }
+      destruct (want cfg w p true).
+      + destruct (new_reg' cfg w p true) as [r6|e|] eqn:E6.
+        * rewrite (no_wrapper_no_share cfg _ r6 (v6_twin_no_wrapper cfg w p r6 E6 Hv4)).
+          destruct (new_reg' cfg w p false) as [r4|e|]; try (cbn; lia).
+          pose proof (ingest_effect_counts covert_check live cfg st r4) as (H & _). lia.
+        * destruct (new_reg' cfg w p false) as [r4|e'|]; try (cbn; lia).
+          pose proof (ingest_effect_counts covert_check live cfg st r4) as (H & _). cbn. lia.
+        * destruct (new_reg' cfg w p false) as [r4|e'|]; try (cbn; lia).
+          pose proof (ingest_effect_counts covert_check live cfg st r4) as (H & _). cbn. lia.
+      + destruct (new_reg' cfg w p false) as [r4|e'|]; try (cbn; lia).
+        pose proof (ingest_effect_counts covert_check live cfg st r4) as (H & _). cbn. lia.
+    - destruct (want cfg w p true); [|cbn; lia].
+      destruct (new_reg' cfg w p true) as [r6|e|]; try (cbn; lia).
+      pose proof (ingest_effect_counts covert_check live cfg (state_before' cfg st w p true) r6) as (H & _). cbn. lia.
+  Qed.
+
+  (* what is shared is marked pre-scanned, sourced DetectorPrescan, and carries the client's own message *)
+  Lemma shared_is_marked r s :
+    generate_c2s_wrapper r = Some s ->
+    sh_source s = src_detector_prescan /\ c_prescanned (sh_payload s) = true /\
+    sh_secret s = r_secret r /\ sh_regaddr s = r_regaddr r /\
+    exists p, r_orig r = Some p /\ sh_payload s = set_prescanned p.
+  Proof.
+    unfold generate_c2s_wrapper. destruct (r_orig r) as [p|]; [|discriminate].
+    destruct (negb (phantom_is_v4 r) && c_v4 p); [discriminate|].
+    intro H; injection H as <-. cbn. repeat split; eauto.
+  Qed.
+End Process.
+
+(* ---- every conjunct of the admission conditions is necessary ---- *)
+Lemma admissible_conjuncts covert_check live cfg st r :
+  admissible covert_check live cfg st r = true ->
+  complete r = true /\ transport_enabled cfg (r_transport r) = true /\ reg_phantom_blocked cfg r = false /\
+  tracked st r = false /\ covert_ok covert_check r = true /\ (needs_probe r = true -> probe_live live r = false).
+Proof.
+  unfold admissible. intro H.
+  apply andb_true_iff in H as [H HF]. apply andb_true_iff in H as [H HE]. apply andb_true_iff in H as [H HD].
+  apply andb_true_iff in H as [H HC]. apply andb_true_iff in H as [HA HB].
+  apply negb_true_iff in HC, HD. repeat split; auto.
+  intro Hn. rewrite Hn in HF. cbn in HF. now apply negb_true_iff in HF.
+Qed.
+
+Lemma buildable_conjuncts select params_ok dst_port geoip_ok cfg w p v6 :
+  buildable select params_ok dst_port geoip_ok cfg w p v6 = true ->
+  override_valid w v6 = true /\
+  select (w_secret w) (c_gen p) (c_libver p) v6 <> None /\
+  transport_enabled cfg (c_transport p) = true /\
+  params_ok (c_transport p) (c_libver p) (effective_params w p) = true /\
+  dst_port (w_secret w) (c_transport p) (c_libver p) (effective_params w p) v6 <> None /\
+  valid_ip (regaddr_of w) = true /\
+  (exists ph, phantom_of select w p v6 = Some ph /\ (is_v4 ph = true -> is_v4 (regaddr_of w) = true)) /\
+  geoip_ok (regaddr_of w) = true.
+Proof.
+  unfold buildable. intro H.
+  apply andb_true_iff in H as [H H8]. apply andb_true_iff in H as [H H7]. apply andb_true_iff in H as [H H6].
+  apply andb_true_iff in H as [H H5]. apply andb_true_iff in H as [H H4]. apply andb_true_iff in H as [H H3].
+  apply andb_true_iff in H as [H1 H2].
+  repeat split; auto.
+  - destruct (select _ _ _ _); [discriminate | discriminate].
+  - destruct (dst_port _ _ _ _ _); [discriminate | discriminate].
+  - destruct (phantom_of select w p v6) as [ph|]; [|discriminate]. exists ph. split; [reflexivity|].
+    intro E. rewrite E in H7. exact H7.
+Qed.
